@@ -32,7 +32,8 @@ From Coq Require Import Floats SpecFloat.
 From GL Require Import Common.Bytes Lua.Syntax Lua.Num Lua.Values Lua.Eval.
 From GL Require Import VMX.Machine.
 
-Definition maxRegisters := 200.
+Definition maxLocalVars := 200.     (* LUAI_MAXVARS: SetRegTop's limit *)
+Definition maxRegisters := 250.     (* MAXSTACK: patchCode's limit on the frame *)
 Definition regNotDefined := opMaxArgsA + 1.
 
 Inductive ectype := EcGlobal | EcUpvalue | EcLocal | EcTable | EcVararg | EcMethod | EcNone.
@@ -137,7 +138,7 @@ Definition FindLocalVar (s : cstate) (x : name) : Z := find_last (cs_locals s) x
 (* func (fc *funcContext) RegisterLocalVar(name) *)
 Definition RegisterLocalVar (x : name) : CM unit :=
   fun s => let top := cs_regtop s + 1 in
-           if top >? maxRegisters then None
+           if top >? maxLocalVars then None
            else Some (tt, mkCS (cs_code s) (cs_consts s) (cs_locals s ++ [x]) top).
 
 (* ---------- constant folding ---------- *)
